@@ -7,6 +7,7 @@ import (
 	"fmt"
 	"go/ast"
 	"go/build"
+	"go/importer"
 	"go/parser"
 	"go/token"
 	"go/types"
@@ -24,9 +25,19 @@ type loader struct {
 	pkgs            map[string]*types.Package
 	infos           map[string]*types.Info
 	files           map[string]map[string]*ast.File // import path -> relative file -> AST
-	decls           map[*types.Func]*helperDecl     // declarations of the module's functions / methods (canon.go, helpers)
-	renamed         []string                        // notes: private functions found under another name
+	decls           map[*types.Func]*helperDecl
 	problems        []string
+	renamed         []string // notes: private functions found under another name
+}
+
+func newLoader(repo, root string) *loader {
+	build.Default.Dir = repo              // third-party imports are resolved by `go list` run inside the module …
+	os.Setenv("GOFLAGS", "-mod=readonly") // … which must never rewrite <repo>/go.mod or go.sum, nor use the network
+	os.Setenv("GOPROXY", "off")
+	l := &loader{repo: repo, root: root, mod: moduleOf(repo), pkgs: map[string]*types.Package{}, infos: map[string]*types.Info{},
+		files: map[string]map[string]*ast.File{}, decls: map[*types.Func]*helperDecl{}}
+	l.src = importer.ForCompiler(fset, "source", nil).(types.ImporterFrom)
+	return l
 }
 
 func (l *loader) Import(path string) (*types.Package, error) { return l.ImportFrom(path, l.repo, 0) }
@@ -156,36 +167,6 @@ func recvName(fd *ast.FuncDecl) string {
 	return ""
 }
 
-func leanStr(s string) string {
-	s = strings.ReplaceAll(s, "\\", "\\\\")
-	s = strings.ReplaceAll(s, "\"", "\\\"")
-	s = strings.ReplaceAll(s, "--", "-\\x2d") // ./check strips `--` comments line-wise before it looks for forbidden words
-	return "\"" + s + "\""
-}
-
-func leanStrs(ss []string) string {
-	var out []string
-	for _, s := range ss {
-		out = append(out, leanStr(s))
-	}
-	return "[" + strings.Join(out, ", ") + "]"
-}
-
-func fatal(a ...any) {
-	fmt.Fprintln(os.Stderr, append([]any{"resfacts:"}, a...)...)
-	os.Exit(1)
-}
-
-func writeIfChanged(path, content string) {
-	old, err := os.ReadFile(path)
-	if err == nil && string(old) == content {
-		return
-	}
-	if err := os.WriteFile(path, []byte(content), 0o644); err != nil {
-		fatal(err)
-	}
-}
-
 func moduleOf(repo string) string {
 	b, err := os.ReadFile(filepath.Join(repo, "go.mod"))
 	if err != nil {
@@ -198,22 +179,4 @@ func moduleOf(repo string) string {
 	}
 	fatal("no module line in go.mod")
 	return ""
-}
-
-func isNil(e ast.Expr) bool {
-	id, ok := e.(*ast.Ident)
-	return ok && id.Name == "nil"
-}
-
-func contains(outer, inner ast.Node) bool {
-	return outer != nil && inner != nil && outer.Pos() <= inner.Pos() && inner.End() <= outer.End()
-}
-
-func addUnique(xs []string, s string) []string {
-	for _, x := range xs {
-		if x == s {
-			return xs
-		}
-	}
-	return append(xs, s)
 }
